@@ -115,7 +115,8 @@ def run(ctx):
     ctx.cov["tie_vector_inputs"] = ndist
     ctx.cov["assignment_classes"] = ncls
     ctx.cov["auxiliary"] = {
-        "what": "large-sample clause: sizes {24,25,26,49,50,51}^2 with and without ties, random samples; normal approximation "
+        "what": "large-sample clause: sizes {5,14,24,25,26,38,44,49,50,51,60,70}^2 with and without ties, random samples; benchmath's "
+                "assume-nothing comparison in both argument orders = twice the smaller one-sided value capped at 1; normal approximation "
                 "re-evaluated with math.Erfc where the spec's UseExact is false, exact tail by an independent dynamic programme "
                 "where it is true (tolerance 1e-9 relative); all-equal large samples => ErrSamplesEqual",
         "cases": naux,
